@@ -161,3 +161,56 @@ func Lagrange(i uint64, ids []uint64) *big.Int {
 	num.Mul(num, den)
 	return num.Mod(num, curveN)
 }
+
+// N returns the group order.
+func N() *big.Int { return new(big.Int).Set(curveN) }
+
+func compress(x, y *big.Int) []byte {
+	out := make([]byte, 33)
+	out[0] = 2
+	if y.Bit(0) == 1 {
+		out[0] = 3
+	}
+	copy(out[1:], pad32(x.Bytes()))
+	return out
+}
+
+// BaseMult returns k·G compressed (k taken mod N, must be non-zero).
+func BaseMult(k *big.Int) []byte {
+	kk := new(big.Int).Mod(k, curveN)
+	x, y := secp256k1.S256().ScalarBaseMult(pad32(kk.Bytes()))
+	return compress(x, y)
+}
+
+// SumPoints adds compressed points.
+func SumPoints(pts ...[]byte) ([]byte, error) {
+	curve := secp256k1.S256()
+	var x, y *big.Int
+	for _, p := range pts {
+		pk, err := secp256k1.ParsePubKey(p)
+		if err != nil {
+			return nil, err
+		}
+		if x == nil {
+			x, y = pk.X(), pk.Y()
+			continue
+		}
+		x, y = curve.Add(x, y, pk.X(), pk.Y())
+	}
+	if x == nil {
+		return nil, errors.New("no points")
+	}
+	return compress(x, y), nil
+}
+
+// EvalPoly evaluates Σ coef[k]·x^k mod N.
+func EvalPoly(coef []*big.Int, x uint64) *big.Int {
+	acc := new(big.Int)
+	bx := new(big.Int).SetUint64(x)
+	for k := len(coef) - 1; k >= 0; k-- {
+		acc.Mul(acc, bx)
+		acc.Add(acc, coef[k])
+		acc.Mod(acc, curveN)
+	}
+	return acc
+}
